@@ -250,7 +250,8 @@ Definition doc_ops : list (string * string * string) := [
   ("List", "__LIST{{ {} }}", "VList");
   ("Tuple", "__TUPLE{{ {} }}", "VTuple");
   ("Variant", "__VARIANT{{ ""{}"", {} }}", "VVariant");
-  ("Index", "__INDEX({}, {})", "rt_index");
+  (* since /repo 2dc2918 an index read is a statement of its own: evaluated where it is written *)
+  ("Index", "local {} = __INDEX({}, {})", "rt_index");
   ("Blob", "__BLOB{{ {} }}", "VBlob");
   ("AssignIndex", "__ASSIGN_INDEX({}, {}, {})", "(not modelled)")
 ].
